@@ -419,3 +419,370 @@ theorem exec_literal (s0 : St) (hv : ValPos s0) (b : UInt8) (m : Mode) (w : Byte
 
 
 end OjgVerif.Json
+
+namespace OjgVerif.Json
+open OjgVerif
+
+/-- the specification's string reader without surrogate pairing: what the machines implement
+(known finding C02-surrogate); `Spec.pChars` differs only in combining `\uD8xx\uDCxx` -/
+def pCharsM : Nat → Bytes → Option (Bytes × Bytes)
+  | 0, _ => none
+  | f+1, bs =>
+    match bs with
+    | [] => none
+    | b :: r =>
+      if b = 34 then some ([], r)
+      else if b = 92 then
+        match r with
+        | [] => none
+        | e :: r' =>
+          if e = 117 then
+            match Spec.hex4 r' with
+            | none => none
+            | some (u, r'') => (pCharsM f r'').map fun p => (Spec.utf8Enc u ++ p.1, p.2)
+          else
+            match Spec.escByte e with
+            | some c => (pCharsM f r').map fun p => (c :: p.1, p.2)
+            | none => none
+      else if b < 32 then none
+      else (pCharsM f r).map fun p => (b :: p.1, p.2)
+
+/-- inside a string that started from state `s0` (key or value), `acc` bytes decoded so far -/
+structure InStr (s0 s : St) (acc : Bytes) : Prop where
+  mode : s.mode = .string
+  tmp : s.tmp = acc.reverse
+  starts : s.starts = s0.starts
+  stack : s.stack = s0.stack
+  docs : s.docs = s0.docs
+  next : s.nextMode = s0.nextMode
+
+theorem deliver_id (s : St) (h : expectedFin s.mode ≠ .a) : deliver refTables cfg1 s = s := by
+  unfold deliver
+  have : refTables.fin s.mode ≠ .a := h
+  simp [this]
+
+/-- a plain character -/
+theorem step_strOk (s : St) (b : UInt8) (hm : s.mode = .string) (hb : b ≠ 34 ∧ b ≠ 92 ∧ ¬ b < 32) :
+    step refTables cfg1 s b = .ok { s with tmp := b :: s.tmp, pos := s.pos + 1, inFast := false } := by
+  have hact : refTables.act s.mode b = .strOk := by
+    rw [hm]; show expected .string b = _
+    simp [expected, hb.1, hb.2.1, hb.2.2]
+  unfold step stepAct
+  simp only [hact, Bool.false_eq_true, ↓reduceIte]
+  rw [deliver_id _ (by simp only [hm]; decide)]
+
+theorem step_strCtl (s : St) (b : UInt8) (hm : s.mode = .string) (hb : b ≠ 34 ∧ b ≠ 92 ∧ b < 32) :
+    ∃ e, step refTables cfg1 s b = .error e := by
+  have hact : refTables.act s.mode b = .charErr := by
+    rw [hm]; show expected .string b = _
+    simp [expected, hb.1, hb.2.1, hb.2.2]
+  unfold step stepAct
+  simp only [hact]
+  exact ⟨_, rfl⟩
+
+/-- state after the backslash of an escape -/
+def sEsc (s : St) : St := { s with mode := Mode.esc, pos := s.pos + 1, inFast := false }
+
+theorem step_strSlash (s : St) (hm : s.mode = .string) :
+    step refTables cfg1 s 92 = .ok (sEsc s) := by
+  unfold sEsc
+  have hact : refTables.act s.mode 92 = .strSlash := by rw [hm]; rfl
+  unfold step stepAct
+  simp only [hact, ↓reduceIte]
+
+theorem step_escOk (s : St) (e c : UInt8) (hm : s.mode = .esc) (he : Spec.escByte e = some c) :
+    step refTables cfg1 s e = .ok { s with tmp := c :: s.tmp, mode := .string, pos := s.pos + 1, inFast := false } := by
+  have h2 : expected .esc e = .escOk ∧ unesc e = c := by
+    unfold Spec.escByte at he
+    simp only [expected, unesc]
+    repeat' split at he
+    all_goals first
+      | (cases he; rename_i h; subst h; decide)
+      | (cases he)
+  have hact : refTables.act s.mode e = .escOk := by rw [hm]; exact h2.1
+  have hesc : refTables.escByte e = c := h2.2
+  unfold step stepAct
+  simp only [hact, ↓reduceIte, hesc]
+
+
+theorem step_escBad (s : St) (e : UInt8) (hm : s.mode = .esc) (he : Spec.escByte e = none) (hu : e ≠ 117) :
+    ∃ err, step refTables cfg1 s e = .error err := by
+  have hact : refTables.act s.mode e = .charErr := by
+    rw [hm]; show expected .esc e = _
+    unfold Spec.escByte at he
+    simp only [expected]
+    repeat' split at he
+    all_goals first
+      | cases he
+      | skip
+    rename_i h1 h2 h3 h4 h5 h6 h7 h8
+    simp [h1, h2, h3, h4, h5, h6, h7, h8, hu]
+  unfold step stepAct
+  simp only [hact]
+  exact ⟨_, rfl⟩
+
+theorem step_escU (s : St) (hm : s.mode = .esc) :
+    step refTables cfg1 s 117 = .ok { s with mode := .u, rn := 0, ri := 0, pos := s.pos + 1, inFast := false } := by
+  have hact : refTables.act s.mode 117 = .escU := by rw [hm]; rfl
+  unfold step stepAct
+  simp only [hact, ↓reduceIte]
+
+theorem hexNib_eq (b : UInt8) : hexDigitVal b = Spec.hexNib b ∨ Spec.isHex b = false := by
+  unfold hexDigitVal Spec.hexNib Spec.isHex
+  by_cases h1 : (48 ≤ b && b ≤ 57) = true
+  · simp [h1]
+  · by_cases h2 : (97 ≤ b && b ≤ 102) = true
+    · simp [h1, h2]
+    · by_cases h3 : (65 ≤ b && b ≤ 70) = true
+      · simp [h1, h2, h3]
+      · right; simp [h1, h2, h3]
+
+theorem expected_u (b : UInt8) : expected .u b = if Spec.isHex b then .uOk else .charErr := rfl
+
+/-- one hex digit of a `\uXXXX` escape (not the fourth) -/
+theorem step_uMid (s : St) (b : UInt8) (hm : s.mode = .u) (hb : Spec.isHex b = true) (hri : s.ri + 1 ≠ 4) :
+    step refTables cfg1 s b = .ok { s with ri := s.ri + 1, rn := s.rn * 16 + Spec.hexNib b, pos := s.pos + 1, inFast := false } := by
+  have hact : refTables.act s.mode b = .uOk := by rw [hm]; show expected .u b = _; rw [expected_u, hb]; rfl
+  have hn : hexDigitVal b = Spec.hexNib b := by
+    rcases hexNib_eq b with h | h
+    · exact h
+    · rw [hb] at h; cases h
+  unfold step stepAct
+  simp only [hact, ↓reduceIte, hri, hn]
+
+/-- the fourth hex digit: the rune is encoded and appended -/
+theorem step_uLast (s : St) (b : UInt8) (hm : s.mode = .u) (hb : Spec.isHex b = true) (hri : s.ri + 1 = 4) :
+    step refTables cfg1 s b = .ok ({ s with ri := s.ri + 1, rn := s.rn * 16 + Spec.hexNib b, tmp := (Spec.utf8Enc (s.rn * 16 + Spec.hexNib b)).reverse ++ s.tmp, mode := Mode.string, pos := s.pos + 1, inFast := false } : St) := by
+  have hact : refTables.act s.mode b = .uOk := by rw [hm]; show expected .u b = _; rw [expected_u, hb]; rfl
+  have hn : hexDigitVal b = Spec.hexNib b := by
+    rcases hexNib_eq b with h | h
+    · exact h
+    · rw [hb] at h; cases h
+  have henc : ∀ r, utf8Enc r = Spec.utf8Enc r := fun _ => rfl
+  unfold step stepAct
+  simp only [hact, ↓reduceIte, hri, hn, henc]
+
+theorem step_uBad (s : St) (b : UInt8) (hm : s.mode = .u) (hb : Spec.isHex b = false) :
+    ∃ e, step refTables cfg1 s b = .error e := by
+  have hact : refTables.act s.mode b = .charErr := by
+    rw [hm]; show expected .u b = _; rw [expected_u, hb]; rfl
+  unfold step stepAct
+  simp only [hact]
+  exact ⟨_, rfl⟩
+
+
+/-- `k` hex digits continuing the rune `acc` -/
+def hexN : Nat → Nat → Bytes → Option (Nat × Bytes)
+  | 0, acc, bs => some (acc, bs)
+  | _ + 1, _, [] => none
+  | k + 1, acc, b :: r => if Spec.isHex b then hexN k (acc * 16 + Spec.hexNib b) r else none
+
+theorem hex4_eq_hexN (bs : Bytes) : Spec.hex4 bs = hexN 4 0 bs := by
+  match bs with
+  | [] => rfl
+  | [a] => simp only [Spec.hex4, hexN]; split <;> rfl
+  | [a, b] => simp only [Spec.hex4, hexN]; split <;> (try split) <;> rfl
+  | [a, b, c] => simp only [Spec.hex4, hexN]; split <;> (try split) <;> (try split) <;> rfl
+  | a :: b :: c :: d :: r =>
+    simp only [Spec.hex4, hexN]
+    by_cases ha : Spec.isHex a = true <;> by_cases hb : Spec.isHex b = true <;>
+      by_cases hc : Spec.isHex c = true <;> by_cases hd : Spec.isHex d = true <;> simp [ha, hb, hc, hd]
+
+/-- the hex digits of a unicode escape: all of them, or a rejection -/
+theorem exec_hexN (k : Nat) : ∀ (s : St), s.mode = .u → s.ri + k = 4 → 1 ≤ k → ∀ bs,
+    exec s bs = match hexN k s.rn bs with
+      | none => none
+      | some (u, rest) =>
+        exec ({ s with ri := 4, rn := u, tmp := (Spec.utf8Enc u).reverse ++ s.tmp, mode := Mode.string, pos := s.pos + k, inFast := false } : St) rest := by
+  induction k with
+  | zero => intro s _ _ h; omega
+  | succ k ih =>
+    intro s hm hri hk bs
+    cases bs with
+    | nil => simp only [hexN]; exact exec_nil_of_absent s (by rw [hm]; rfl)
+    | cons b r =>
+      simp only [hexN]
+      by_cases hb : Spec.isHex b = true
+      · simp only [hb, ↓reduceIte]
+        by_cases hk0 : k = 0
+        · subst hk0
+          rw [exec_cons, step_uLast s b hm hb (by omega)]
+          simp only [hexN]
+          have : s.ri + 1 = 4 := by omega
+          rw [this]
+        · rw [exec_cons, step_uMid s b hm hb (by omega)]
+          simp only
+          have := ih ({ s with ri := s.ri + 1, rn := s.rn * 16 + Spec.hexNib b, pos := s.pos + 1, inFast := false } : St)
+            hm (by simp only; omega) (by omega) r
+          rw [this]
+          simp only
+          cases hexN k (s.rn * 16 + Spec.hexNib b) r with
+          | none => rfl
+          | some p =>
+            simp only
+            have : s.pos + 1 + k = s.pos + (k + 1) := by omega
+            rw [this]
+      · have hb' : Spec.isHex b = false := by simpa using hb
+        obtain ⟨e, he⟩ := step_uBad s b hm hb'
+        rw [exec_cons, he]
+        simp [hb']
+
+
+theorem hexN_length (k acc : Nat) (bs : Bytes) (u : Nat) (rest : Bytes) (h : hexN k acc bs = some (u, rest)) :
+    rest.length + k = bs.length := by
+  induction k generalizing acc bs with
+  | zero => simp only [hexN, Option.some.injEq, Prod.mk.injEq] at h; rw [h.2]; rfl
+  | succ k ih =>
+    cases bs with
+    | nil => simp [hexN] at h
+    | cons b r =>
+      simp only [hexN] at h
+      split at h
+      · have := ih _ _ h; simp only [List.length_cons]; omega
+      · cases h
+
+/-- state after a complete unicode escape that decoded the rune `u` -/
+def sUni (s : St) (u : Nat) : St :=
+  { s with ri := 4, rn := u, tmp := (Spec.utf8Enc u).reverse ++ s.tmp, mode := Mode.string, pos := s.pos + 1 + 1 + 4, inFast := false }
+/-- state after a simple escape that stands for the byte `c` -/
+def sEscOk (s : St) (c : UInt8) : St :=
+  { s with tmp := c :: s.tmp, mode := Mode.string, pos := s.pos + 1 + 1, inFast := false }
+/-- state after a plain character -/
+def sChr (s : St) (b : UInt8) : St := { s with tmp := b :: s.tmp, pos := s.pos + 1, inFast := false }
+
+theorem exec_uni (s : St) (hm : s.mode = .string) (r' : Bytes) :
+    exec s (92 :: 117 :: r') = match hexN 4 0 r' with
+      | none => none
+      | some (u, rest) => exec (sUni s u) rest := by
+  rw [exec_cons, step_strSlash s hm]
+  simp only
+  rw [exec_cons, step_escU (sEsc s) rfl]
+  simp only
+  exact exec_hexN 4 _ rfl rfl (by omega) r'
+
+theorem exec_escOk (s : St) (hm : s.mode = .string) (e c : UInt8) (hc : Spec.escByte e = some c) (r' : Bytes) :
+    exec s (92 :: e :: r') = exec (sEscOk s c) r' := by
+  rw [exec_cons, step_strSlash s hm]
+  simp only
+  rw [exec_cons, step_escOk (sEsc s) e c rfl hc]
+  rfl
+
+theorem exec_escBad (s : St) (hm : s.mode = .string) (e : UInt8) (hc : Spec.escByte e = none) (hu : e ≠ 117)
+    (r' : Bytes) : exec s (92 :: e :: r') = none := by
+  obtain ⟨err, he⟩ := step_escBad (sEsc s) e rfl hc hu
+  rw [exec_cons, step_strSlash s hm]
+  simp only
+  rw [exec_cons]
+  show (match step refTables cfg1 (sEsc s) e with | .error _ => none | .ok s' => exec s' r') = none
+  rw [he]
+
+theorem pCharsM_map_some {f : Nat} {r : Bytes} {g : Bytes → Bytes} {str rest : Bytes}
+    (h : (pCharsM f r).map (fun p => (g p.1, p.2)) = some (str, rest)) :
+    ∃ q, pCharsM f r = some (q, rest) ∧ str = g q := by
+  cases hp : pCharsM f r with
+  | none => rw [hp] at h; cases h
+  | some q =>
+    rw [hp] at h
+    simp only [Option.map_some, Option.some.injEq, Prod.mk.injEq] at h
+    exact ⟨q.1, by rw [← h.2], h.1.symm⟩
+
+theorem pCharsM_map_none {f : Nat} {r : Bytes} {g : Bytes × Bytes → Bytes × Bytes}
+    (h : (pCharsM f r).map g = none) : pCharsM f r = none := by
+  cases hp : pCharsM f r with
+  | none => rfl
+  | some q => rw [hp] at h; cases h
+
+/-- **Strings.** From inside a string (opening quote consumed, `acc` decoded so far) the machine
+follows the specification's character reader: on success it stands before the closing quote with
+exactly the decoded bytes pending; otherwise the input is rejected. -/
+theorem exec_chars (fuel : Nat) : ∀ (s0 s : St) (acc bs : Bytes), InStr s0 s acc → bs.length < fuel →
+    (∀ str rest, pCharsM fuel bs = some (str, rest) →
+      ∃ s2, InStr s0 s2 (acc ++ str) ∧ exec s bs = exec s2 (34 :: rest)) ∧
+    (pCharsM fuel bs = none → exec s bs = none) := by
+  induction fuel with
+  | zero => intro _ _ _ bs _ h; omega
+  | succ f ih =>
+    intro s0 s acc bs hin hlen
+    have hm := hin.mode
+    cases bs with
+    | nil =>
+      simp only [pCharsM]
+      exact ⟨(fun _ _ h => nomatch h), fun _ => exec_nil_of_absent s (by rw [hm]; rfl)⟩
+    | cons b r =>
+      have hlr : r.length < f := by simp only [List.length_cons] at hlen; omega
+      simp only [pCharsM]
+      by_cases hq : b = 34
+      · subst hq
+        simp only [↓reduceIte]
+        refine ⟨fun str rest h => ?_, (fun h => nomatch h)⟩
+        simp only [Option.some.injEq, Prod.mk.injEq] at h
+        obtain ⟨rfl, rfl⟩ := h
+        exact ⟨s, by simpa using hin, rfl⟩
+      · simp only [hq, ↓reduceIte]
+        by_cases hs : b = 92
+        · subst hs
+          simp only [↓reduceIte]
+          cases r with
+          | nil =>
+            refine ⟨(fun _ _ h => nomatch h), fun _ => ?_⟩
+            rw [exec_cons, step_strSlash s hm]
+            exact exec_nil_of_absent _ (by rfl)
+          | cons e r' =>
+            simp only
+            by_cases hu : e = 117
+            · subst hu
+              simp only [↓reduceIte]
+              rw [hex4_eq_hexN, exec_uni s hm]
+              cases hh : hexN 4 0 r' with
+              | none => exact ⟨(fun _ _ h => nomatch h), fun _ => rfl⟩
+              | some p =>
+                obtain ⟨u, r''⟩ := p
+                simp only
+                have hl := hexN_length 4 0 r' u r'' hh
+                have hin2 : InStr s0 (sUni s u) (acc ++ Spec.utf8Enc u) :=
+                  ⟨rfl, by simp [sUni, hin.tmp], hin.starts, hin.stack, hin.docs, hin.next⟩
+                obtain ⟨ih1, ih2⟩ := ih s0 _ (acc ++ Spec.utf8Enc u) r'' hin2 (by simp only [List.length_cons] at hlr; omega)
+                constructor
+                · intro str rest h
+                  obtain ⟨q, hq1, rfl⟩ := pCharsM_map_some (g := fun x => Spec.utf8Enc u ++ x) h
+                  obtain ⟨s2, hin3, hex⟩ := ih1 q rest hq1
+                  exact ⟨s2, by simpa [List.append_assoc] using hin3, hex⟩
+                · intro h
+                  exact ih2 (pCharsM_map_none h)
+            · simp only [hu, ↓reduceIte]
+              cases hc : Spec.escByte e with
+              | none => exact ⟨(fun _ _ h => nomatch h), fun _ => exec_escBad s hm e hc hu r'⟩
+              | some c =>
+                simp only
+                have hin2 : InStr s0 (sEscOk s c) (acc ++ [c]) :=
+                  ⟨rfl, by simp [sEscOk, hin.tmp], hin.starts, hin.stack, hin.docs, hin.next⟩
+                obtain ⟨ih1, ih2⟩ := ih s0 _ (acc ++ [c]) r' hin2 (by simp only [List.length_cons] at hlr; omega)
+                rw [exec_escOk s hm e c hc]
+                constructor
+                · intro str rest h
+                  obtain ⟨q, hq1, rfl⟩ := pCharsM_map_some (g := fun x => c :: x) h
+                  obtain ⟨s2, hin3, hex⟩ := ih1 q rest hq1
+                  exact ⟨s2, by simpa [List.append_assoc] using hin3, hex⟩
+                · intro h
+                  exact ih2 (pCharsM_map_none h)
+        · simp only [hs, ↓reduceIte]
+          by_cases hctl : b < 32
+          · simp only [hctl, ↓reduceIte]
+            refine ⟨(fun _ _ h => nomatch h), fun _ => ?_⟩
+            obtain ⟨e, he⟩ := step_strCtl s b hm ⟨hq, hs, hctl⟩
+            rw [exec_cons, he]
+          · simp only [hctl, ↓reduceIte]
+            have hin2 : InStr s0 (sChr s b) (acc ++ [b]) :=
+              ⟨hm, by simp [sChr, hin.tmp], hin.starts, hin.stack, hin.docs, hin.next⟩
+            obtain ⟨ih1, ih2⟩ := ih s0 _ (acc ++ [b]) r hin2 hlr
+            rw [exec_cons, step_strOk s b hm ⟨hq, hs, hctl⟩]
+            constructor
+            · intro str rest h
+              obtain ⟨q, hq1, rfl⟩ := pCharsM_map_some (g := fun x => b :: x) h
+              obtain ⟨s2, hin3, hex⟩ := ih1 q rest hq1
+              exact ⟨s2, by simpa [List.append_assoc] using hin3, hex⟩
+            · intro h
+              exact ih2 (pCharsM_map_none h)
+
+
+end OjgVerif.Json
